@@ -7,61 +7,49 @@
 From Coq Require Import Arith List Bool Reals Floats.
 Import ListNotations.
 From MT Require Import Arith J SweepModel RInst Spec EmProofs AscentProofs GenParams.
+Local Open Scope R_scope.
 
 (* general affinity, directed and undirected: for every well-formed graph view and every state whose membership rows outside *)
 (* the source/target lists are zero (true of every reachable state: C17 start + C02_invariant_preserved) *)
-Theorem C02_sweep_is_em_general : forall (N K L : nat) (directed : bool) (G : graph)
-         (u v : matrix Rdefinitions.RbaseSymbolsImpl.R)
-         (w : list (matrix Rdefinitions.RbaseSymbolsImpl.R)),
+Theorem C02_sweep_is_em_general : forall (N K L : nat) (directed : bool) (G : graph) (u v : matrix R) (w : list (matrix R)),
        wfG N L G ->
        (if directed then wfG_directed N L G /\ zero_rows N (gvl G) v else wfG_undirected N L G) ->
        zero_rows N (gul G) u ->
-       sweep_gen Rdefinitions.RbaseSymbolsImpl.R ArithR N K L directed G (u, v, w) =
-       em_sweep_gen N K L (gout G) directed (u, v, w).
+       sweep_gen R ArithR N K L directed G (u, v, w) = em_sweep_gen N K L (gout G) directed (u, v, w).
 Proof. exact sweep_gen_is_em. Qed.
 Print Assumptions C02_sweep_is_em_general.
 
-Theorem C02_sweep_is_em_assortative : forall (N K L : nat) (directed : bool) (G : graph)
-         (u v : matrix Rdefinitions.RbaseSymbolsImpl.R)
-         (w : list (list Rdefinitions.RbaseSymbolsImpl.R)),
+Theorem C02_sweep_is_em_assortative : forall (N K L : nat) (directed : bool) (G : graph) (u v : matrix R) (w : list (list R)),
        wfG N L G ->
        (if directed then wfG_directed N L G /\ zero_rows N (gvl G) v else wfG_undirected N L G) ->
        zero_rows N (gul G) u ->
-       sweep_ass Rdefinitions.RbaseSymbolsImpl.R ArithR N K L directed G (u, v, w) =
-       em_sweep_ass N K L (gout G) directed (u, v, w).
+       sweep_ass R ArithR N K L directed G (u, v, w) = em_sweep_ass N K L (gout G) directed (u, v, w).
 Proof. exact sweep_ass_is_em. Qed.
 Print Assumptions C02_sweep_is_em_assortative.
 
 (* entries that are zero (indeed <= 1e-6) are returned unchanged by all three updates *)
-Theorem C02_zero_stays_zero : forall (N K L : nat) (G : graph) (u v : matrix Rdefinitions.RbaseSymbolsImpl.R)
-         (w : list (matrix Rdefinitions.RbaseSymbolsImpl.R)),
+Theorem C02_zero_stays_zero : forall (N K L : nat) (G : graph) (u v : matrix R) (w : list (matrix R)),
        let
-       '(u1, v1, w1) := sweep_gen Rdefinitions.RbaseSymbolsImpl.R ArithR N K L true G (u, v, w) in
-        (forall i k : nat, i < N -> k < K -> Rdefinitions.Rle (g u i k) epsR -> g u1 i k = g u i k) /\
-        (forall j k : nat, j < N -> k < K -> Rdefinitions.Rle (g v j k) epsR -> g v1 j k = g v j k) /\
+       '(u1, v1, w1) := sweep_gen R ArithR N K L true G (u, v, w) in
+        (forall i k : nat, (i < N)%nat -> (k < K)%nat -> g u i k <= epsR -> g u1 i k = g u i k) /\
+        (forall j k : nat, (j < N)%nat -> (k < K)%nat -> g v j k <= epsR -> g v1 j k = g v j k) /\
         (forall k q a : nat,
-         k < K -> q < K -> a < L -> Rdefinitions.Rle (tg w k q a) epsR -> tg w1 k q a = tg w k q a).
+         (k < K)%nat -> (q < K)%nat -> (a < L)%nat -> tg w k q a <= epsR -> tg w1 k q a = tg w k q a).
 Proof. exact zero_stays_zero. Qed.
 Print Assumptions C02_zero_stays_zero.
 
 (* results below 1e-6 in absolute value are snapped to zero, others kept *)
-Theorem C02_snap_small : forall x : Rdefinitions.RbaseSymbolsImpl.R,
-       Rdefinitions.RbaseSymbolsImpl.Rlt (Rbasic_fun.Rabs x) epsR ->
-       truncR x = Rdefinitions.IZR BinNums.Z0.
+Theorem C02_snap_small : forall x : R, Rabs x < epsR -> truncR x = 0.
 Proof. exact truncR_small. Qed.
 Print Assumptions C02_snap_small.
 
-Theorem C02_snap_big : forall x : Rdefinitions.RbaseSymbolsImpl.R,
-       Rdefinitions.Rle epsR (Rbasic_fun.Rabs x) -> truncR x = x.
+Theorem C02_snap_big : forall x : R, epsR <= Rabs x -> truncR x = x.
 Proof. exact truncR_big. Qed.
 Print Assumptions C02_snap_big.
 
 (* non-negativity and the zero rows are preserved by a sweep, so the hypotheses above hold along every trajectory *)
-Theorem C02_invariant_preserved : forall (N K L : nat) (G : graph)
-         (s : matrix Rdefinitions.RbaseSymbolsImpl.R * matrix Rdefinitions.RbaseSymbolsImpl.R *
-              list (matrix Rdefinitions.RbaseSymbolsImpl.R)),
-       wfG N L G ->
-       inv_gen N G s -> inv_gen N G (sweep_gen Rdefinitions.RbaseSymbolsImpl.R ArithR N K L true G s).
+Theorem C02_invariant_preserved : forall (N K L : nat) (G : graph) (s : matrix R * matrix R * list (matrix R)),
+       wfG N L G -> inv_gen N G s -> inv_gen N G (sweep_gen R ArithR N K L true G s).
 Proof. exact sweep_gen_directed_inv. Qed.
 Print Assumptions C02_invariant_preserved.
 
